@@ -5,6 +5,7 @@ exact values of the float32 inputs, the membership algorithm that `contains_iff_
 denoted set, together with the smallest normalised slack of any comparison.  Whenever that slack
 exceeds MARGIN the implementation's Boolean must agree (a difference is a failing input: the point is
 farther than the tolerance from every decision boundary and the answer is wrong)."""
+import json
 from fractions import Fraction as Fr
 
 import common
@@ -73,9 +74,9 @@ def near_points(node, env, rng, out, fwd=lambda p: p):
 
 def make_case(ctx, idx):
     rng = ctx.rng
-    mode = rng.choice(["solid2", "solid2", "solid2", "solid1", "solid3", "prod", "bdry", "bdry", "bdry-adjacent"])
-    params = rng.choice([[], ["t"], ["t"], ["t", "D"]])
-    g = Gen(rng, params=params)
+    mode = rng.choice(["solid2", "solid2", "solid2", "solid1", "solid3", "prod", "prod", "bdry", "bdry", "bdry-adjacent"])
+    params = rng.choice([[], ["t"], ["t", "D"], ["t", "D"]])
+    g = Gen(rng, params=params, p_default=0.5)   # parameter functions with a defaulted argument: supplied values must win
     depth = rng.choice([1, 2, 2, 3, 3]) if ctx.quick else rng.choice([1, 2, 3, 3, 4])
     if mode == "solid2":
         node = g.solid(depth, "x")
@@ -86,9 +87,9 @@ def make_case(ctx, idx):
         node = g.solid(min(depth, 2), "z")
     elif mode == "prod":
         # first factor may depend on the second factor's variable (dependent product)
-        gb = Gen(rng, params=params)
+        gb = Gen(rng, params=params, p_default=0.5)
         b = gb.prim1("s")
-        ga = Gen(rng, params=params + (["s"] if rng.random() < 0.6 else []), allow_translate=False, allow_rotate=False)
+        ga = Gen(rng, params=params + (["s"] if rng.random() < 0.6 else []), allow_translate=False, allow_rotate=False, p_default=0.5)
         a = ga.solid(min(depth, 2), "x")
         node = geomgen.Node("prod", None, [], [a, b])
     elif mode == "bdry-adjacent":
@@ -149,31 +150,50 @@ def run_impl(case):
     tp = common.use_repo()
     import torch
     node = geomgen.from_json(case["dom"])
-    dom = node.to_tp(tp)
-    rows = case["rows"]
-    vars_ = node.vars()
-    cols = []
-    for pt, _ in rows:
-        r = []
-        for var in vars_:
-            r += [float(Fr(a)) for a in pt[var]]
-        cols.append(r)
-    pts = tp.spaces.Points(torch.tensor(cols, dtype=torch.float32), node.space(tp))
-    params = case["params"]
-    if params:
-        pspace = None
-        for p in params:
-            s = tp.spaces.R1(p)
-            pspace = s if pspace is None else pspace * s
-        pr = tp.spaces.Points(torch.tensor([[float(Fr(env[p][0])) for p in params] for _, env in rows], dtype=torch.float32), pspace)
-    else:
-        pr = tp.spaces.Points.empty()
+    # every fourth parameter-free 2-D case realises the variable 'x' as R1('xa')*R1('xb') and hands the query
+    # points over in the order (xb, xa): the domain has to pick its coordinates by NAME
+    split = (node.vars() == ["x"] and not case["params"] and case.get("id", 0) % 4 == 2
+             and "rotate" not in node.kinds() and "translate" not in node.kinds())
+    geomgen.SPLIT_VARS = {"x": ["xa", "xb"]} if split else {}
     try:
-        res = dom._contains(pts, pr)
-    except Exception as e:  # noqa
-        return dict(error=f"{type(e).__name__}: {str(e)[:200]}")
-    shape = tuple(res.shape)
-    return dict(bools=[bool(b) for b in res.reshape(-1).tolist()], shape=shape)
+        dom = node.to_tp(tp)
+        rows = case["rows"]
+        vars_ = node.vars()
+        if len(vars_) > 1 and case.get("id", 0) % 2 == 1:
+            # the query points list the variables in another order than the domain's own space
+            vars_ = vars_[1:] + vars_[:1] if case.get("id", 0) % 4 == 1 else vars_[::-1]
+        cols = []
+        for pt, _ in rows:
+            r = []
+            for var in vars_:
+                vals = [float(Fr(a)) for a in pt[var]]
+                r += vals[::-1] if split else vals
+            cols.append(r)
+        qspace = None
+        for name in vars_:
+            if split and name == "x":
+                s_ = tp.spaces.R1("xb") * tp.spaces.R1("xa")
+            else:
+                s_ = {1: tp.spaces.R1, 2: tp.spaces.R2, 3: tp.spaces.R3}[geomgen.DIM[name]](name)
+            qspace = s_ if qspace is None else qspace * s_
+        pts = tp.spaces.Points(torch.tensor(cols, dtype=torch.float32), qspace)
+        params = case["params"]
+        if params:
+            pspace = None
+            for p in params:
+                s = tp.spaces.R1(p)
+                pspace = s if pspace is None else pspace * s
+            pr = tp.spaces.Points(torch.tensor([[float(Fr(env[p][0])) for p in params] for _, env in rows], dtype=torch.float32), pspace)
+        else:
+            pr = tp.spaces.Points.empty()
+        try:
+            res = dom._contains(pts, pr)
+        except Exception as e:  # noqa
+            return dict(error=f"{type(e).__name__}: {str(e)[:200]}", split=split)
+        shape = tuple(res.shape)
+        return dict(bools=[bool(b) for b in res.reshape(-1).tolist()], shape=shape, split=split)
+    finally:
+        geomgen.SPLIT_VARS = {}
 
 
 def driver_lines(case):
@@ -241,7 +261,12 @@ def boundary_acceptance(case, rep):
         if not torch.isfinite(s.as_tensor).all():
             rep.count("bdry-sampler-nan:" + how)
             continue
-        ok = B._contains(s, rp).reshape(-1)
+        try:
+            ok = B._contains(s, rp).reshape(-1)
+        except Exception as e:
+            rep.fail(f"boundary membership raised {type(e).__name__}: {str(e)[:160]} on the points of the boundary's own {how} sampler",
+                     dict(dom=case["dom"], params=params, envs=envs, how=how, n=n, seed=case["id"]))
+            continue
         rep.count("own-boundary-samples", len(ok))
         if not bool(ok.all()):
             bad = int((~ok).sum())
@@ -325,7 +350,12 @@ def operand_boundary_finish(case, job, replies, rep):
     if not keep:
         return
     rp = tp.spaces.Points(torch.repeat_interleave(pr.as_tensor, n, dim=0), pr.space) if params else pr
-    ok = B._contains(s, rp).reshape(-1)
+    try:
+        ok = B._contains(s, rp).reshape(-1)
+    except Exception as e:
+        rep.fail(f"boundary membership raised {type(e).__name__}: {str(e)[:160]} on points of an operand's boundary",
+                 dict(dom=case["dom"], params=params, envs=envs, how="operand-" + which, n=n, seed=case["id"]))
+        return
     rep.count("operand-boundary-points", len(keep))
     bad = [i for i in keep if not bool(ok[i])]
     if bad:
@@ -493,12 +523,18 @@ def run(ctx, rep, cases=None):
     for cs, (a, n) in zip(cases, spans):
         node = geomgen.from_json(cs["dom"])
         rep.count("mode:" + cs["mode"])
+        if '"default ' in json.dumps(cs["dom"]):
+            rep.count("parameter-function-with-defaulted-argument")
+        if len(node.vars()) > 1 and cs.get("id", 0) % 2 == 1:
+            rep.count("query-variables-permuted")
         rep.count("depth:%d" % node.depth())
         for kd in set(node.kinds()):
             rep.count("node:" + kd)
         rep.count("param-rows:%d" % len({str(e) for _, e in cs["rows"]}) if cs["params"] else "param-rows:0")
         res = run_impl(cs)
         results.append(res)
+        if res.get("split"):
+            rep.count("2-D variable realised as R1*R1, query order swapped")
         nontrivial = node.depth() > 1 or bool(node.free_vars())
         rep.case(dict(dom=cs["dom"], rows=len(cs["rows"])), nontrivial,
                  sample=dict(expression=node.tokens(), first_query=cs["rows"][0], implementation=(res.get("bools") or [res])[0],
